@@ -66,6 +66,7 @@ Inlines == { Inl("t", "alpha", "", ""), Inl("em", "beta", "", ""), Inl("st", "x1
              Inl("sup", "x", "2", ""), Inl("sub", "H", "2", ""),
              Inl("smart", "\"alpha\"", "&#8220;alpha&#8221;", "&quot;alpha&quot;"), Inl("smart", "x1 -- beta", "x1 &#8211; beta", "x1 -- beta"),
              Inl("smart", "x1---beta", "x1&#8212;beta", "x1---beta"), Inl("smart", "alpha...", "alpha&#8230;", "alpha..."), Inl("smart", "it's", "it&#8217;s", "it's"),
+             Inl("em", "b", "", ""), Inl("st", "s", "", ""), Inl("code", "c", "", ""), Inl("link", "l", "http://u.rl/p", ""), Inl("img", "x", "i.png", ""),      \* one-character contents
              Inl("smart", "3-fold", "3-fold", "3-fold"), Inl("smart", "well-known", "well-known", "well-known"), Inl("smart", "'alpha'", "&#8216;alpha&#8217;", "'alpha'") }
 \* MultiMarkdown-only inlines (not compared in compatibility mode): math in its four spellings, reference links, footnotes
 RefA == Inl4("ref", "alpha", "http://a.b/c", "", "alpha")           \* implicit label: written [alpha][]
